@@ -140,6 +140,10 @@ func Encrypt(in io.Reader, opts EncryptOptions) (io.Reader, error) {
 	if err != nil {
 		return nil, fmt.Errorf("failed to wrap the file key: %w", err)
 	}
+	if len(wrappedFileKey) == 0 {
+		// Decrypt rejects a manifest with an empty wrapped file key: do not produce a document that cannot be decrypted
+		return nil, errors.New("failed to wrap the file key: the wrapped key is empty")
+	}
 
 	// Create the manifest and sign it
 	keyName := opts.DecryptionKeyName
